@@ -74,6 +74,10 @@ func c08Jobs(tier string, seed int64) []*engine.Job {
 		if c.objOnly {
 			params["objects_only"] = "1"
 		}
+		if strings.HasPrefix(c.path, "$[") && !strings.Contains(c.path, "'") {
+			// a union applies to arrays only, while its single selector `[*]` alone also applies to objects
+			params["objects_only"] = "arrays"
+		}
 		if i == len(parts)-1 {
 			// `..['a','b']` is not the concatenation of `..a` and `..b` (interleaving per container): skip
 			continue
